@@ -105,7 +105,7 @@ impl Engine for C13 {
 
     fn rule(&self, tier: Tier) -> String {
         format!(
-            "well-typed programs = a fixed library (class with defaults and a field of every type, multiclass, defs, global variables) + every single feature group{} + all {} groups together (groups: inheritance with overrides, defaults, record-typed parameters and subclass casts, defm, multiclass inheritance, foreach, if, defset, group let, class values, field access and slices, one call of each of the operator forms of DESIGN Appendix D, assert/dump, typed defvars, literals), single groups also inside foreach / let / if wrappers, one-file, two-file and diamond (the library included directly and again through a third file) layouts; each must have no diagnostics, printed plainly and with a comment after every identifier. \
+            "well-typed programs = a fixed library (class with defaults and a field of every type, multiclass, defs, global variables) + every single feature group{} + all {} groups together (groups: inheritance with overrides, defaults, record-typed parameters and subclass casts, defm, multiclass inheritance, foreach, if, defset, group let, class values, field access and slices, one call of each of the operator forms of DESIGN Appendix D, assert/dump, typed defvars, literals), single groups also inside foreach / let / if wrappers, one-file, two-file, diamond (the library included directly and again through a third file) and chain (root -> mid -> library; single groups) layouts; six groups hold every convertible pair of the 15-type conversion matrix in one kind of slot each, where one slot of every (kind, type) also receives every declared-type value that does not convert; each must have no diagnostics, printed plainly and with a comment after every identifier. \
              Then EVERY single fault at EVERY recorded site: undefined class / multiclass / identifier / include, missing or surplus template argument, a value of each incompatible base type in every field initialiser, override and template argument, one argument removed from or added to every operator call whose arity that violates, a deleted ';' and a stray ')' after every statement. \
              non-trivial = every case; distinct by construction.",
             tier.pick("", " and every ordered pair"),
